@@ -2,6 +2,22 @@ use serde_json::json;
 use std::io::Write;
 use vmv::engine::*;
 
+// --- interposed C symbols (see vmv::interpose) -------------------------------------------------
+
+#[no_mangle]
+pub unsafe extern "C" fn mmap(addr: *mut libc::c_void, len: libc::size_t, prot: libc::c_int, flags: libc::c_int, fd: libc::c_int, off: libc::off_t) -> *mut libc::c_void {
+    let r = libc::syscall(libc::SYS_mmap, addr, len, prot, flags, fd, off);
+    vmv::interpose::report(vmv::interpose::Ev::Mmap { ret: r as usize, len, prot, flags, fd, off });
+    r as *mut libc::c_void
+}
+
+#[no_mangle]
+pub unsafe extern "C" fn munmap(addr: *mut libc::c_void, len: libc::size_t) -> libc::c_int {
+    let r = libc::syscall(libc::SYS_munmap, addr, len) as libc::c_int;
+    vmv::interpose::report(vmv::interpose::Ev::Munmap { addr: addr as usize, len, ret: r });
+    r
+}
+
 fn usage() -> ! {
     eprintln!("usage: vmv list | run --prop ID --tier quick|thorough [--seed N] [--shard i/n] [--out F] [--keys F] [--tapefile F] [--known a,b] [--only SUB] [--scale X] [--replay-dir D] | replay FILE [--known a,b] | replay-tapefile FILE --prop ID | merge-keys F...");
     std::process::exit(2)
@@ -17,6 +33,7 @@ fn main() {
         usage();
     }
     install_panic_hook();
+    vmv::interpose::mark_installed();
     let props = vmv::properties();
     let known: Vec<String> = arg_val(&args, "--known")
         .map(|s| s.split(',').filter(|x| !x.is_empty()).map(|x| x.to_string()).collect())
